@@ -225,7 +225,7 @@ def validate(number):
         raise InvalidFormat()
     if not isdigits(number[9:12]):
         raise InvalidFormat()
-    if not number[12].isalpha():
+    if number[12] not in 'ABCDEFGHIJKLMNOPQRSTUVWXYZ':
         raise InvalidFormat()
     return number
 
